@@ -76,6 +76,20 @@ ShiftPairs ==
        chain |-> "minter",
        a |-> [BaseEvent("ToHub") EXCEPT !.tok = "1", !.amt = 12805],
        b |-> [BaseEvent("ToHub") EXCEPT !.tok = "12", !.amt = 5]],
+      \* an empty variable-length field next to a non-empty one (the external tx hash and the fee payer may be empty):
+      \* the same bytes, one field boundary further
+      [kind |-> "shift", t |-> "Exec", field |-> "txh|fp|fpr", note |-> "empty tx hash + fee 5 + payer '7' against tx hash '5' + fee 7 + empty payer",
+       chain |-> "ethereum",
+       a |-> [BaseEvent("Exec") EXCEPT !.txh = "raw:", !.fp = 5, !.fpr = "raw:7"],
+       b |-> [BaseEvent("Exec") EXCEPT !.txh = "raw:5", !.fp = 7, !.fpr = "raw:"]],
+      [kind |-> "shift", t |-> "Deposit", field |-> "rch|eh|txh", note |-> "empty receiver chain + height = bytes 'ethereum' + tx hash '0xabcdef' against chain 'ethereum' + height = bytes '0xabcdef' + empty tx hash",
+       chain |-> "ethereum",
+       a |-> [BaseEvent("Deposit") EXCEPT !.rch = "", !.eh = "7310315566637742445", !.txh = "raw:0xabcdef"],
+       b |-> [BaseEvent("Deposit") EXCEPT !.rch = "ethereum", !.eh = "3492891145076663654", !.txh = "raw:"]],
+      [kind |-> "shift", t |-> "CCExec", field |-> "scope|txh", note |-> "empty invalidation scope against empty tx hash",
+       chain |-> "ethereum",
+       a |-> [BaseEvent("CCExec") EXCEPT !.scope = "", !.txh = "raw:abc"],
+       b |-> [BaseEvent("CCExec") EXCEPT !.scope = "abc", !.txh = "raw:"]],
       [kind |-> "shift", t |-> "Deposit", field |-> "rcv|rch", note |-> "receiver chain 'bsc' against receiver chain 'b' cannot be shifted into a 42 character receiver: kept as a negative control",
        chain |-> "ethereum",
        a |-> [BaseEvent("Deposit") EXCEPT !.rch = "bsc"],
